@@ -714,6 +714,19 @@ def fixed_scenarios(prop):
                     "cwds": ["here", "parent", "dot", "updown", "abs"],
                     "params": [["a", "pk", None], ["b", "pk", I(0)]], "ignore": [], "compress": False,
                     "versions": {"0": {"tag": "v0", "path": "verifmod.py", "pad": 0, "kind": "main"}}, "events": ev})
+        # slow executions x a KNOWN key collision (F1: positional-only parameters dropped from the key): the colliding
+        # call rewrites -- refreshes -- the entry, so its age is the age of what the store holds under the real key.
+        # Short form, and the generated history (C02 seed 20260930, r-97) on which the first bookkeeping (by binding) broke.
+        def pc(kind_, a, b, c):
+            return [kind_, 0, {"pos": [I(a), I(b), I(c)], "kw": []}, True]
+        out.append({"id": "fixed-slow-expiry-key-collision", "type": "sig", "callback": False, "expires": {"hours": 24},
+                    "slow": 259200.0, "params": [["a", "po", None], ["b", "po", I(11)], ["c", "po", I(12)],
+                                                 ["kw", "vk", None]], "ignore": [], "compress": False,
+                    "versions": {"0": {"tag": "v0", "path": "verifmod.py", "pad": 0, "kind": "def"}},
+                    "events": [["define", 0], ["wrap", 0], pc("call", 5, 11, 12), pc("call", 2, 1, 1),
+                               pc("check", 5, 11, 0), pc("call", 5, 11, 0), pc("check", 5, 11, 12),
+                               pc("call", 5, 11, 12), pc("check", 5, 11, 0), pc("call", 5, 11, 0), pc("call", 2, 1, 1)]})
+        out.append(json.loads('{"callback": false, "compress": false, "events": [["define", 0], ["wrap", 0], ["check", 0, {"kw": [["x", {"d": []}]], "pos": [{"i": 5}, {"i": 11}, {"i": 12}]}, true], ["call", 0, {"kw": [["x", {"d": []}]], "pos": [{"i": 5}, {"i": 11}, {"i": 12}]}, true], ["jlog"], ["check", 0, {"kw": [["x", {"d": []}]], "pos": [{"i": 5}]}, true], ["shelve", 0, {"kw": [["x", {"d": []}]], "pos": [{"i": 5}]}, true], ["jlog"], ["check", 0, {"kw": [["x", {"d": []}]], "pos": [{"i": 5}, {"i": 11}]}, true], ["call", 0, {"kw": [["x", {"d": []}]], "pos": [{"i": 5}, {"i": 11}]}, true], ["evict", {"bytes": 0}], ["check", 0, {"kw": [], "pos": [{"b": true}, {"S": [{"i": 1}, {"i": 2}]}, {"n": 0}]}, true], ["call", 0, {"kw": [], "pos": [{"b": true}, {"S": [{"i": 1}, {"i": 2}]}, {"n": 0}]}, true], ["jlog"], ["check", 0, {"kw": [], "pos": [{"b": true}, {"S": [{"i": 1}, {"i": 2}]}, {"n": 0}]}, true], ["call", 0, {"kw": [], "pos": [{"b": true}, {"S": [{"i": 1}, {"i": 2}]}, {"n": 0}]}, true], ["jlog"], ["check", 0, {"kw": [], "pos": [{"b": true}, {"S": [{"i": 1}, {"i": 2}]}, {"b": false}]}, true], ["call", 0, {"kw": [], "pos": [{"b": true}, {"S": [{"i": 1}, {"i": 2}]}, {"b": false}]}, true], ["evict", 2], ["check", 0, {"kw": [["y", {"i": 2}]], "pos": [{"b": true}, {"S": [{"i": 1}, {"i": 2}]}, {"n": 0}]}, true], ["shelve", 0, {"kw": [["y", {"i": 2}]], "pos": [{"b": true}, {"S": [{"i": 1}, {"i": 2}]}, {"n": 0}]}, true], ["clearfunc2", 0, {"ignore": [], "mmap_mode": null}], ["check", 0, {"kw": [["x", {"d": []}]], "pos": [{"i": 5}, {"i": 11}, {"i": 0}]}, true], ["call", 0, {"kw": [["x", {"d": []}]], "pos": [{"i": 5}, {"i": 11}, {"i": 0}]}, true], ["clearref", 0], ["check", 0, {"kw": [], "pos": [{"b": true}, {"S": [{"i": 2}, {"i": 1}]}, {"n": 0}]}, true], ["shelve", 0, {"kw": [], "pos": [{"b": true}, {"S": [{"i": 2}, {"i": 1}]}, {"n": 0}]}, true], ["get", 2], ["jlog"], ["check", 0, {"kw": [["x", {"d": []}]], "pos": [{"i": 5}, {"i": 11}, {"i": 12}]}, true], ["call", 0, {"kw": [["x", {"d": []}]], "pos": [{"i": 5}, {"i": 11}, {"i": 12}]}, true], ["check", 0, {"kw": [["x", {"d": []}]], "pos": [{"i": 5}, {"i": 11}, {"i": 0}]}, true], ["call", 0, {"kw": [["x", {"d": []}]], "pos": [{"i": 5}, {"i": 11}, {"i": 0}]}, true], ["jlog"], ["check", 0, {"kw": [["z", {"t": []}]], "pos": [{"i": 2}, {"t": [{"i": 1}, {"i": 2}]}, {"d": [[{"i": 1}, {"i": 5}], [{"s": "k"}, {"i": 6}]]}]}, true], ["call", 0, {"kw": [["z", {"t": []}]], "pos": [{"i": 2}, {"t": [{"i": 1}, {"i": 2}]}, {"d": [[{"i": 1}, {"i": 5}], [{"s": "k"}, {"i": 6}]]}]}, true], ["jlog"]], "expires": {"hours": 24}, "id": "fixed-slow-expiry-key-collision-r97", "ignore": [], "mmap_mode": null, "params": [["a", "po", null], ["b", "po", {"i": 11}], ["c", "po", {"i": 12}], ["kw", "vk", null]], "picklable": false, "slow": 259200.0, "type": "sig", "verbose": 60, "versions": {"0": {"kind": "lambda", "pad": 2, "path": "verifmod.py", "tag": "v0"}}}'))
         # C06-13: the function MOVES in its file between two sessions (lines added above it), text unchanged
         ev = []
         for n in range(3):
@@ -1907,7 +1920,12 @@ def expired_events(sc, res):
     for i, (ev, r) in enumerate(zip(sc["events"], res["events"])):
         if ev[0] not in ("call", "shelve", "check") or r.get("bind") is None or "clock0" not in r:
             continue
-        key = r["bind_r"]
+        # the entry's age is the age of what the STORE holds under the call's real key (args_id): where two bindings
+        # share a key (known findings F1/F2) the colliding call has rewritten -- and so refreshed -- the entry.  (That
+        # args_id and binding classes coincide otherwise is checked call by call: key-collision / key-split.)
+        key = r.get("args_id")
+        if key is None:
+            continue
         if key in stored and r["clock0"] - stored[key] > E:
             out.add(i)
             stored.pop(key)      # the rejected entry is deleted (check) or replaced (call)
